@@ -1,0 +1,16 @@
+//go:build verif
+
+package revocation
+
+import (
+	"github.com/gr33nbl00d/caddy-revocation-validator/crl"
+	"github.com/gr33nbl00d/caddy-revocation-validator/ocsp"
+)
+
+// Accessors used only by the verification harness (build tag verif).
+
+func (c *CertRevocationValidator) VerifCRLChecker() *crl.CRLRevocationChecker { return c.crlRevocationChecker }
+
+func (c *CertRevocationValidator) VerifOCSPChecker() *ocsp.OCSPRevocationChecker {
+	return c.ocspRevocationChecker
+}
